@@ -53,44 +53,32 @@ def Adapter.afterMsg (a : Adapter) : Adapter := { a with buf := a.buf.drop a.len
 def Adapter.afterPrefix (a : Adapter) : Adapter :=
   { a with compressed := a.buf.getD 0 0 > 0, length := be32 (a.buf.drop 1), buf := a.buf.drop 5, reading := true }
 
-/-- the comparison as the code makes it (on the truncated buffer length) -/
-theorem loop_reading_wrapped (cd : Codec) (es : Bool) (a : Adapter) (hr : a.reading = true)
-    (h : u32 a.buf.length < a.length) : loop cd es a = ⟨[], some a⟩ := by
+theorem loop_reading_lt (cd : Codec) (es : Bool) (a : Adapter) (hr : a.reading = true)
+    (h : a.buf.length < a.length) : loop cd es a = ⟨[], some a⟩ := by
   conv => lhs; rw [loop]
   simp [hr, h]
 
-theorem loop_reading_lt (cd : Codec) (es : Bool) (a : Adapter) (hr : a.reading = true)
-    (h : a.buf.length < a.length) : loop cd es a = ⟨[], some a⟩ :=
-  loop_reading_wrapped cd es a hr (Nat.lt_of_le_of_lt (u32_le _) h)
-
-theorem not_wrapped {a : Adapter} (h : a.length ≤ a.buf.length) (hb : a.buf.length < 4294967296) :
-    ¬ u32 a.buf.length < a.length := by
-  rw [u32_of_lt hb]; omega
-
 theorem loop_reading_err (cd : Codec) (es : Bool) (a : Adapter) (hr : a.reading = true)
-    (h : a.length ≤ a.buf.length) (hb : a.buf.length < 4294967296)
-    (hd : decode cd a.enc a.compressed (a.buf.take a.length) = none) :
+    (h : a.length ≤ a.buf.length) (hd : decode cd a.enc a.compressed (a.buf.take a.length) = none) :
     loop cd es a = ⟨[], none⟩ := by
   conv => lhs; rw [loop]
-  simp [hr, not_wrapped h hb, hd]
+  simp [hr, Nat.not_lt.mpr h, hd]
 
 theorem loop_reading_last (cd : Codec) (es : Bool) (a : Adapter) (hr : a.reading = true)
-    (h : a.length ≤ a.buf.length) (hb : a.buf.length < 4294967296)
-    (d : Bytes) (hd : decode cd a.enc a.compressed (a.buf.take a.length) = some d)
+    (h : a.length ≤ a.buf.length) (d : Bytes) (hd : decode cd a.enc a.compressed (a.buf.take a.length) = some d)
     (he : a.buf.drop a.length = []) :
     loop cd es a = ⟨[⟨a.compressed, d, es⟩], some a.afterMsg⟩ := by
   conv => lhs; rw [loop]
-  simp [hr, not_wrapped h hb, hd, he, Adapter.afterMsg]
+  simp [hr, Nat.not_lt.mpr h, hd, he, Adapter.afterMsg]
 
 theorem loop_reading_more (cd : Codec) (es : Bool) (a : Adapter) (hr : a.reading = true)
-    (h : a.length ≤ a.buf.length) (hb : a.buf.length < 4294967296)
-    (d : Bytes) (hd : decode cd a.enc a.compressed (a.buf.take a.length) = some d)
+    (h : a.length ≤ a.buf.length) (d : Bytes) (hd : decode cd a.enc a.compressed (a.buf.take a.length) = some d)
     (he : a.buf.drop a.length ≠ []) :
     loop cd es a = Res.cons ⟨a.compressed, d, false⟩ (loop cd es a.afterMsg) := by
   have he' : (a.buf.drop a.length).isEmpty = false := by
-    cases hbb : a.buf.drop a.length <;> simp_all
+    cases hb : a.buf.drop a.length <;> simp_all
   conv => lhs; rw [loop]
-  simp [hr, not_wrapped h hb, hd, he', Adapter.afterMsg]
+  simp [hr, Nat.not_lt.mpr h, hd, he', Adapter.afterMsg]
 
 theorem loop_meta_lt (cd : Codec) (es : Bool) (a : Adapter) (hr : a.reading = false)
     (h : a.buf.length < 5) :
@@ -151,25 +139,18 @@ theorem andThen_pure (a : Adapter) (f : Adapter → Res) : (⟨[], some a⟩ : R
 
 /-- Core of "streaming = batch": running the loop on `buffer ++ b` is running it on `buffer`
 (not at end of stream) and then on what is left with `b` appended - unless the second step would
-be an END_STREAM with nothing appended (that case is the empty end-of-stream frame). The bound
-(fewer than 2^32 + 5 stream bytes pending, the 5 being a prefix already consumed or still to be
-consumed) is the domain on which the code's `uint32(a.buffer.Len())` is the buffer length at every
-comparison; `Props.C11.streaming_eq_batch_bound_sharp`: false with one byte more. -/
-theorem loop_app (cd : Codec) (es : Bool) (a : Adapter) (b : Bytes) (h : b ≠ [] ∨ es = false)
-    (hb : a.pending + b.length < 4294967301) :
+be an END_STREAM with nothing appended (that case is the empty end-of-stream frame). -/
+theorem loop_app (cd : Codec) (es : Bool) (a : Adapter) (b : Bytes) (h : b ≠ [] ∨ es = false) :
     loop cd es (a.app b) = (loop cd false a).andThen (fun a' => loop cd es (a'.app b)) := by
   fun_induction loop cd false a with
   | case1 a hr hlt => simp [Res.andThen]
   | case2 a hr hlt hd =>
-    have hlen : a.buf.length < 4294967296 := by simp [Adapter.pending, hr] at hb; omega
-    have hle : a.length ≤ a.buf.length := by rw [u32_of_lt hlen] at hlt; omega
+    have hle : a.length ≤ a.buf.length := Nat.le_of_not_lt hlt
     rw [loop_reading_err cd es (a.app b) (by simpa [Adapter.app] using hr) (by simp [Adapter.app]; omega)
-      (by simp [Adapter.pending, hr] at hb; simp [Adapter.app]; omega)
       (by simpa [Adapter.app, List.take_append_of_le_length hle] using hd)]
     simp [Res.andThen]
   | case3 a hr hlt d hd a2 c he =>
-    have hlen : a.buf.length < 4294967296 := by simp [Adapter.pending, hr] at hb; omega
-    have hle : a.length ≤ a.buf.length := by rw [u32_of_lt hlen] at hlt; omega
+    have hle : a.length ≤ a.buf.length := Nat.le_of_not_lt hlt
     have he' : a.buf.drop a.length = [] := by simpa [a2] using he
     have ha2 : a2 = a.afterMsg := rfl
     have hc : c = ⟨a.compressed, d, false⟩ := by simp [c]
@@ -179,28 +160,22 @@ theorem loop_app (cd : Codec) (es : Bool) (a : Adapter) (b : Bytes) (h : b ≠ [
     | nil =>
       have hes : es = false := by simpa using h
       subst hes
-      rw [app_nil, app_nil, loop_reading_last cd false a hr hle hlen d hd he',
+      rw [app_nil, app_nil, loop_reading_last cd false a hr hle d hd he',
         loop_meta_lt cd false a.afterMsg (by simp [Adapter.afterMsg]) (by simp [Adapter.afterMsg, he'])]
       simp
     | cons x xs =>
-      rw [loop_reading_more cd es (a.app (x :: xs)) (by simpa [Adapter.app] using hr) (by simp [Adapter.app]; omega)
-        (by simp [Adapter.pending, hr] at hb; simp [Adapter.app]; omega) d
+      rw [loop_reading_more cd es (a.app (x :: xs)) (by simpa [Adapter.app] using hr) (by simp [Adapter.app]; omega) d
         (by simpa [Adapter.app, List.take_append_of_le_length hle] using hd)
         (by simp [Adapter.app, List.drop_append_of_le_length hle, he']), afterMsg_app a _ hle]
       simp [Res.cons, Adapter.app]
   | case4 a hr hlt d hd a2 c he ih =>
-    have hlen : a.buf.length < 4294967296 := by simp [Adapter.pending, hr] at hb; omega
-    have hle : a.length ≤ a.buf.length := by rw [u32_of_lt hlen] at hlt; omega
+    have hle : a.length ≤ a.buf.length := Nat.le_of_not_lt hlt
     have he' : a.buf.drop a.length ≠ [] := by simpa [a2] using he
     have ha2 : a2 = a.afterMsg := rfl
     have hc : c = ⟨a.compressed, d, false⟩ := by simp [c]
     rw [ha2] at ih ⊢
-    have hb2 : a.afterMsg.pending + b.length < 4294967301 := by
-      simp [Adapter.pending, hr] at hb
-      simp [Adapter.pending, Adapter.afterMsg, List.length_drop]; omega
-    rw [hc, cons_andThen, ← ih hb2,
-      loop_reading_more cd es (a.app b) (by simpa [Adapter.app] using hr) (by simp [Adapter.app]; omega)
-        (by simp [Adapter.pending, hr] at hb; simp [Adapter.app]; omega) d
+    rw [hc, cons_andThen, ← ih,
+      loop_reading_more cd es (a.app b) (by simpa [Adapter.app] using hr) (by simp [Adapter.app]; omega) d
         (by simpa [Adapter.app, List.take_append_of_le_length hle] using hd)
         (by simp [Adapter.app, List.drop_append_of_le_length hle, he']), afterMsg_app a _ hle]
     simp [Adapter.app]
@@ -243,48 +218,16 @@ theorem loop_app (cd : Codec) (es : Bool) (a : Adapter) (b : Bytes) (h : b ≠ [
         simp only [Adapter.app]
         rw [List.drop_append_of_le_length (by omega), be32_append _ _ (by simp; omega)]
         exact h0
-    have hb1 : a.afterPrefix.pending + b.length < 4294967301 := by
-      simp [Adapter.pending, hr'] at hb
-      simp [Adapter.pending, Adapter.afterPrefix, List.length_drop]; omega
     rw [loop_meta_go cd es (a.app b) (by simpa [Adapter.app] using hr') (by simp [Adapter.app]; omega) hgo,
-      afterPrefix_app a _ hle, ← ha1, ih (by rw [ha1]; exact hb1), hpre]
+      afterPrefix_app a _ hle, ← ha1, ih, hpre]
     simp only [List.nil_append, r, res_eta]
 
 /-! ### DATA frames: streaming = batch -/
 
-/-- the loop only consumes: what is pending afterwards is no more than what was pending -/
-theorem loop_pending_le (cd : Codec) (es : Bool) (a a' : Adapter) (h : (loop cd es a).next = some a') :
-    a'.pending ≤ a.pending := by
-  fun_induction loop cd es a with
-  | case1 a hr hlt => simp at h; subst h; exact Nat.le_refl _
-  | case2 a hr hlt hd => simp at h
-  | case3 a hr hlt d hd a2 c he =>
-    simp at h; subst h; simp [a2, Adapter.pending, hr, List.length_drop]; omega
-  | case4 a hr hlt d hd a2 c he ih =>
-    have := ih (by simpa [Res.cons] using h)
-    simp [a2, Adapter.pending, hr, List.length_drop] at this ⊢; omega
-  | case5 a hr pre hlt => simp at h; subst h; exact Nat.le_refl _
-  | case6 a hr pre hlt a1 he =>
-    have hr' : a.reading = false := by simpa using hr
-    simp at h; subst h; simp [a1, Adapter.pending, hr', List.length_drop]; omega
-  | case7 a hr pre hlt a1 he r ih =>
-    have hr' : a.reading = false := by simpa using hr
-    have := ih (by simpa [r] using h)
-    simp [a1, Adapter.pending, hr', List.length_drop] at this ⊢; omega
-
-theorem app_pending (a : Adapter) (d : Bytes) : (a.app d).pending = a.pending + d.length := by
-  cases hr : a.reading <;> simp [Adapter.app, Adapter.pending, hr] <;> omega
-
-theorem data_pending_le (cd : Codec) (es : Bool) (a a' : Adapter) (d : Bytes) (h : (data cd a d es).next = some a') :
-    a'.pending ≤ a.pending + d.length := by
-  have := loop_pending_le cd es (a.app d) a' h
-  rwa [app_pending] at this
-
-theorem data_append (cd : Codec) (a : Adapter) (x y : Bytes) (es : Bool) (h : y ≠ [] ∨ es = false)
-    (hb : a.pending + x.length + y.length < 4294967301) :
+theorem data_append (cd : Codec) (a : Adapter) (x y : Bytes) (es : Bool) (h : y ≠ [] ∨ es = false) :
     data cd a (x ++ y) es = (data cd a x false).andThen (fun a' => data cd a' y es) := by
   unfold data
-  rw [← app_app, loop_app cd es (a.app x) y h (by rw [app_pending]; exact hb)]
+  rw [← app_app, loop_app cd es (a.app x) y h]
 
 theorem flatten_ne_nil_of_getLast (fs : List Bytes) (h : fs ≠ []) (hl : fs.getLast? ≠ some []) :
     fs.flatten ≠ [] := by
@@ -300,8 +243,7 @@ theorem flatten_ne_nil_of_getLast (fs : List Bytes) (h : fs ≠ []) (hl : fs.get
       exact this (by simpa using hc.2)
 
 theorem runFrames_eq_data (cd : Codec) (a : Adapter) (fs : List Bytes) (es : Bool) (hne : fs ≠ [])
-    (hl : es = false ∨ fs.getLast? ≠ some [])
-    (hb : a.pending + fs.flatten.length < 4294967301) :
+    (hl : es = false ∨ fs.getLast? ≠ some []) :
     runFrames cd a fs es = data cd a fs.flatten es := by
   induction fs generalizing a with
   | nil => exact absurd rfl hne
@@ -318,16 +260,11 @@ theorem runFrames_eq_data (cd : Codec) (a : Adapter) (fs : List Bytes) (es : Boo
         · exact Or.inr h
         · exact Or.inl (flatten_ne_nil_of_getLast _ (by simp) h)
       have e : (f :: g :: gs).flatten = f ++ (g :: gs).flatten := by simp
-      have hb' : a.pending + f.length + (g :: gs).flatten.length < 4294967301 := by
-        rw [e, List.length_append] at hb; omega
-      rw [e, data_append cd a f _ es hfl hb']
+      rw [e, data_append cd a f _ es hfl]
       simp only [runFrames]
-      cases hn : (data cd a f false).next with
-      | none => simp [Res.andThen, hn]
-      | some a1 =>
-        have h1 := data_pending_le cd false a a1 f hn
-        simp only [Res.andThen, hn]
-        rw [ih a1 (by simp) hl' (by omega)]
+      congr 1
+      funext a'
+      exact ih a' (by simp) hl'
 
 theorem runFrames_snoc (cd : Codec) (a : Adapter) (fs : List Bytes) (hne : fs ≠ []) (g : Bytes) (es : Bool) :
     runFrames cd a (fs ++ [g]) es = (runFrames cd a fs false).andThen (fun a' => data cd a' g es) := by
@@ -358,8 +295,7 @@ theorem stream_cons (m : GMsg) (ms : List GMsg) : stream (m :: ms) = m.frame ++ 
 
 /-- one message at the head of the buffer of an adapter that is between messages -/
 theorem loop_frame (cd : Codec) (es : Bool) (a : Adapter) (m : GMsg) (rest : Bytes)
-    (hr : a.reading = false) (hb : a.buf = m.frame ++ rest) (hok : m.ok cd a.enc)
-    (hbd : a.buf.length < 4294967301) :
+    (hr : a.reading = false) (hb : a.buf = m.frame ++ rest) (hok : m.ok cd a.enc) :
     loop cd es a =
       if rest = [] then ⟨[⟨m.compressed, m.plain, es⟩], some (a.afterDelivery m [])⟩
       else Res.cons ⟨m.compressed, m.plain, false⟩ (loop cd es (a.afterDelivery m rest)) := by
@@ -381,17 +317,13 @@ theorem loop_frame (cd : Codec) (es : Bool) (a : Adapter) (m : GMsg) (rest : Byt
     simp only [Adapter.afterPrefix, hd5, hbe, hflag]
   rw [loop_meta_go cd es a hr hlen hgo, hap]
   have htake : List.take m.wire.length (m.wire ++ rest) = m.wire := by simp
-  have hbd5 : (m.wire ++ rest).length < 4294967296 := by
-    have := congrArg List.length hd5
-    simp only [List.length_drop] at this
-    omega
   have hdrop : List.drop m.wire.length (m.wire ++ rest) = rest := by simp
   by_cases hrest : rest = []
   · rw [if_pos hrest]
-    rw [loop_reading_last cd es _ rfl (by simp) hbd5 m.plain (by simpa [htake] using hok.1) (by simp [hrest])]
+    rw [loop_reading_last cd es _ rfl (by simp) m.plain (by simpa [htake] using hok.1) (by simp [hrest])]
     simp [Adapter.afterMsg, Adapter.afterDelivery, hrest]
   · rw [if_neg hrest]
-    rw [loop_reading_more cd es _ rfl (by simp) hbd5 m.plain (by simpa [htake] using hok.1) (by simpa using hrest)]
+    rw [loop_reading_more cd es _ rfl (by simp) m.plain (by simpa [htake] using hok.1) (by simpa using hrest)]
     simp [Adapter.afterMsg, Adapter.afterDelivery]
 
 theorem afterDelivery_app (a : Adapter) (m : GMsg) (rest : Bytes) :
@@ -400,7 +332,7 @@ theorem afterDelivery_app (a : Adapter) (m : GMsg) (rest : Bytes) :
 
 /-- A whole stream in one DATA call: exactly the messages, end-of-stream on the last only. -/
 theorem data_stream (cd : Codec) (es : Bool) (ms : List GMsg) (hne : ms ≠ []) (a : Adapter)
-    (ha : a.atRest) (hok : ∀ m ∈ ms, m.ok cd a.enc) (hlen : (stream ms).length < 4294967301) :
+    (ha : a.atRest) (hok : ∀ m ∈ ms, m.ok cd a.enc) :
     ∃ a', data cd a (stream ms) es = ⟨expCalls ms es, some a'⟩ ∧ a'.atRest ∧ a'.enc = a.enc := by
   induction ms generalizing a with
   | nil => exact absurd rfl hne
@@ -412,20 +344,17 @@ theorem data_stream (cd : Codec) (es : Bool) (ms : List GMsg) (hne : ms ≠ []) 
       refine ⟨a.afterDelivery m [], ?_, ⟨rfl, rfl⟩, rfl⟩
       unfold data
       rw [loop_frame cd es (a.app (stream [m])) m [] (by simp [Adapter.app, ha.1])
-        (by simp [Adapter.app, ha.2, stream]) (by simpa [Adapter.app] using hok m (by simp))
-        (by simpa [Adapter.app, ha.2] using hlen)]
+        (by simp [Adapter.app, ha.2, stream]) (by simpa [Adapter.app] using hok m (by simp))]
       simp [expCalls, Adapter.afterDelivery, Adapter.app]
     | cons m' ms' =>
       have hrest : stream (m' :: ms') ≠ [] := by
         rw [stream_cons]; simp [frame_ne_nil]
       obtain ⟨a', h1, h2, h3⟩ := ih (by simp) (a.afterDelivery m []) ⟨rfl, rfl⟩
         (fun x hx => by simpa [Adapter.afterDelivery] using hok x (by simp [List.mem_cons] at hx ⊢; exact Or.inr hx))
-        (by rw [stream_cons, List.length_append] at hlen; omega)
       refine ⟨a', ?_, h2, by simpa [Adapter.afterDelivery] using h3⟩
       unfold data at h1 ⊢
       rw [loop_frame cd es (a.app (stream (m :: m' :: ms'))) m (stream (m' :: ms')) (by simp [Adapter.app, ha.1])
-        (by simp [Adapter.app, ha.2, stream_cons]) (by simpa [Adapter.app] using hok m (by simp))
-        (by simpa [Adapter.app, ha.2] using hlen)]
+        (by simp [Adapter.app, ha.2, stream_cons]) (by simpa [Adapter.app] using hok m (by simp))]
       rw [if_neg hrest]
       have e : (a.app (stream (m :: m' :: ms'))).afterDelivery m (stream (m' :: ms')) =
           (a.afterDelivery m []).app (stream (m' :: ms')) := by
@@ -448,11 +377,11 @@ theorem data_nil_true (cd : Codec) (a : Adapter) (ha : a.atRest) :
 
 /-- `data_stream` for any number of messages when the frame does not end the stream -/
 theorem data_stream_false (cd : Codec) (ms : List GMsg) (a : Adapter)
-    (ha : a.atRest) (hok : ∀ m ∈ ms, m.ok cd a.enc) (hlen : (stream ms).length < 4294967301) :
+    (ha : a.atRest) (hok : ∀ m ∈ ms, m.ok cd a.enc) :
     ∃ a', data cd a (stream ms) false = ⟨expCalls ms false, some a'⟩ ∧ a'.atRest ∧ a'.enc = a.enc := by
   cases ms with
   | nil => exact ⟨a, by simpa [stream, expCalls] using data_nil_false cd a ha, ha, rfl⟩
-  | cons m ms => exact data_stream cd false (m :: ms) (by simp) a ha hok hlen
+  | cons m ms => exact data_stream cd false (m :: ms) (by simp) a ha hok
 
 theorem stream_ne_nil (ms : List GMsg) (h : ms ≠ []) : stream ms ≠ [] := by
   cases ms with
@@ -559,5 +488,6 @@ theorem scanEncoding_append (e : Enc) (xs ys : List Header) :
       | none => simp [scanEncoding, hn, hv]
       | some e' => simp [scanEncoding, hn, hv, ih]
     · simp [scanEncoding, hn, ih]
+
 
 end Martian.Grpc
